@@ -387,8 +387,23 @@ func (c *Ctx) callSiteAsserts(fr *Frame, st *State, callee *ssa.Function, args [
 	if fr.contract == nil || !fr.top {
 		return
 	}
-	for _, cl := range fr.contract.byKind(kind) {
-		if cl.Name != callee.Name() && cl.Name != fnKey(callee) && cl.Name != callee.RelString(callee.Pkg.Pkg) {
+	clauses := fr.contract.byKind(kind)
+	if len(clauses) == 0 {
+		return
+	}
+	// ordinal of this call site among the calls to that callee (execution order of the engine = source order)
+	fr.callSeq["site:"+kind+callee.Name()]++
+	siteOrd := fr.callSeq["site:"+kind+callee.Name()]
+	for _, cl := range clauses {
+		cname, ord := cl.Name, 0
+		if i := strings.LastIndex(cname, "#"); i > 0 {
+			fmt.Sscanf(cname[i+1:], "%d", &ord)
+			cname = cname[:i]
+		}
+		if cname != callee.Name() && cname != fnKey(callee) && (callee.Pkg == nil || cname != callee.RelString(callee.Pkg.Pkg)) {
+			continue
+		}
+		if ord > 0 && ord != siteOrd {
 			continue
 		}
 		env := c.specEnv(fr, st, fr.entry, nil)
@@ -396,10 +411,10 @@ func (c *Ctx) callSiteAsserts(fr *Frame, st *State, callee *ssa.Function, args [
 		for i, p := range callee.Params {
 			if i < len(args) {
 				env.vars["arg"+fmt.Sprint(i)] = args[i]
-				env.vars["$"+p.Name()] = args[i]
+				env.vars["dollar_"+p.Name()] = args[i]
 			}
 		}
-		fr.callSeq[kind+cl.Name]++
+		name := fmt.Sprintf("%s:%s#%d/%d", kind, cname, siteOrd, cl.Idx)
 		if cl.InScope {
 			// attach only where every identifier of the assertion is in scope
 			env.soft = true
@@ -410,11 +425,11 @@ func (c *Ctx) callSiteAsserts(fr *Frame, st *State, callee *ssa.Function, args [
 				continue
 			}
 			cl.Attached++
-			c.oblige(kind, fmt.Sprintf("%s:%s#%d/%d", kind, cl.Name, fr.callSeq[kind+cl.Name], cl.Idx), st.reach, g, c.pos(pos)).Desc = cl.Text
+			c.oblige(kind, name, st.reach, g, c.pos(pos)).Desc = cl.Text
 			continue
 		}
 		g := c.specBool(env, cl.Expr)
-		c.oblige(kind, fmt.Sprintf("%s:%s#%d/%d", kind, cl.Name, fr.callSeq[kind+cl.Name], cl.Idx), st.reach, g, c.pos(pos)).Desc = cl.Text
+		c.oblige(kind, name, st.reach, g, c.pos(pos)).Desc = cl.Text
 	}
 }
 
